@@ -197,6 +197,16 @@ SendExplicit(acct, scope, mc, S) ==
            ELSE /\ UNCHANGED <<st, spentBy, sends, tip, locked, leased>>
                 /\ Step("SendExplicit", a, "refused")
 
+(* PSBT funding with inputs chosen by the caller (Wallet.FundPsbt): nothing  *)
+(* is recorded or broadcast; the selection is refused unless every input is  *)
+(* eligible for the request.                                                 *)
+FundOwn(acct, scope, mc, S) ==
+    /\ S # {} /\ \A c \in S : Exists(c) /\ ~IsChange(c)
+    /\ LET E == Eligible(acct, scope, mc) IN
+       /\ UNCHANGED <<st, spentBy, sends, tip, locked, leased>>
+       /\ Step("FundOwn", [acct |-> acct, scope |-> scope, mc |-> mc, sel |-> S, elig |-> E],
+               IF S \subseteq E THEN "ok" ELSE "refused")
+
 (* dry run with the random strategy: inputs must lie inside Eligible; nothing changes *)
 DryRun(acct, scope, mc) ==
     /\ LET E == Eligible(acct, scope, mc) IN
@@ -218,6 +228,7 @@ Next ==
     \/ On("Lease") /\ \E c \in LockCoins, id \in 1..2 : Lease(c, id) \/ Release(c, id)
     \/ On("Send") /\ \E acct \in Accts, scope \in Scopes, mc \in 0..2, k \in 1..3, ans \in Answers : Send(acct, scope, mc, k, ans)
     \/ On("SendExplicit") /\ \E acct \in Accts, scope \in Scopes, mc \in 0..1, S \in SUBSET Base : Cardinality(S) <= 2 /\ SendExplicit(acct, scope, mc, S)
+    \/ On("FundOwn") /\ \E acct \in Accts, scope \in Scopes, c \in Base : FundOwn(acct, scope, 1, {c})
     \/ On("DryRun") /\ \E acct \in Accts, scope \in Scopes, mc \in 0..2 : DryRun(acct, scope, mc)
     \/ On("Restart") /\ Restart
 
